@@ -97,7 +97,7 @@ def run(ck):
     sents = []
     for w in rt_top:
         nt = STMT_NT.get(w)
-        for _ in range(10 if ck.tier == "quick" else 100):
+        for _ in range(10 if ck.tier == "quick" else 500):
             toks = gen.sentence(rng, nt or "Statement", budget=5)
             sents.append((w, gen.render(rng, toks, "spaced")))
     pa, pb = core.compare(ck, "statements", [s for _, s in sents], lambda s: "parse %s" % hexs(s))
@@ -112,7 +112,7 @@ def run(ck):
     ck.count("statements", len(sents), {s for _, s in sents}, sample={"sentence": sents[0][1][:100]})
     # ---- class completion: exactly the classes of the workspace, one placeholder per parameter
     progs = []
-    for _ in range(120 if ck.tier == "quick" else 1500):
+    for _ in range(120 if ck.tier == "quick" else 10000):
         ncls = rng.randrange(1, 6)
         classes = {}
         main, inc = [], []
